@@ -9,7 +9,9 @@ T7 = F(1, 10 ** 7)
 
 
 def V3(p):
-    return (p.x, p.y, p.z) if isinstance(p, Point) else (p[0], p[1], p[2])
+    t = (p.x, p.y, p.z) if isinstance(p, Point) else (p[0], p[1], p[2])
+    # concrete (float) values enter the oracles as the exact rationals they are
+    return tuple(F(c) if isinstance(c, float) else c for c in t)
 
 
 def pnear(a, b):
@@ -61,6 +63,8 @@ def same(a, b, deep=True):
         c = [set_match(a.points, b.points, pnear)]
         if deep:
             c += [same(a.plane, b.plane), pnear(a.center_point, b.center_point)]
+            # the edges the public segments() reports (whatever it caches) are the edges of the current vertex cycle
+            c.append(set_match(list(a.segments()), list(b.segments()), seg_eq))
         return And(*c)
     if isinstance(a, ConvexPolyhedron):
         c = [set_match(a.point_set, b.point_set, pnear), set_match(a.segment_set, b.segment_set, seg_eq),
@@ -136,6 +140,12 @@ def fam_move(ctx, kind, fr_name, shape, start, probe):
         if start == 'moved-copy':
             obj = copy.deepcopy(obj0)
     orig = make(ctx, kind, fr_name, shape, u)
+    # ---- the object has been used before it is moved (queries interleaved with moves): whatever a query caches must not survive the move
+    for _, f in measures(obj):
+        call(f)
+    if kind == 'ConvexPolygon':
+        call(lambda: list(obj.segments()))
+    call(lambda: hash(obj))
     # ---- one move by v
     st, ret = call(lambda: obj.move(vec(ctx, v)))
     if st == 'raise':
